@@ -209,6 +209,46 @@ def canon_small(d):
     return json.dumps(d, sort_keys=True)
 
 
+def run_held(ctx, r, rounds):
+    """One iterator (the query's own, or that of a values / items / locations view) is taken BEFORE the operations and
+    read in between them: skip / drop n called while it is being read remove the next n matches from what it yields."""
+    import jsonpath
+
+    for _ in range(rounds):
+        n = r.choice([0, 1, 2, 5, 10, 33])
+        ms = matches_for(n)
+        source = r.choice(["iterator", "generator", "query"])
+        q = jsonpath.query("$[*]", [{"id": i} for i in range(n)]) if source == "query" else jsonpath.Query((m for m in ms) if source == "generator" else iter(ms), jsonpath.DEFAULT_ENV)
+        view = r.choice(["iter", "values", "items", "locations"])
+        held = iter(q) if view == "iter" else iter(getattr(q, view)())
+        proj = {"iter": lambda m: (m.path, canon_small(m.obj)), "values": lambda m: canon_small(m.obj), "items": lambda m: (m.path, canon_small(m.obj)), "locations": lambda m: m.path}[view]
+        seen = {"iter": lambda x: (x.path, canon_small(x.obj)), "values": canon_small, "items": lambda x: (x[0], canon_small(x[1])), "locations": lambda x: x}[view]
+        L, got, want, steps = list(ms), [], [], []
+        for _s in range(r.randint(1, 5)):
+            k = r.randint(0, 3)
+            for _k in range(k):
+                x = next(held, _END)
+                if x is not _END:
+                    got.append(seen(x))
+            want += [proj(m) for m in L[:k]]
+            L = L[k:]
+            op, c = r.choice(["skip", "drop"]), r.choice([0, 1, 1, 2, 3, n])
+            getattr(q, op)(c)
+            L = L[c:]
+            steps.append(["read %d" % k, "%s(%d)" % (op, c)])
+        got += [seen(x) for x in held]
+        want += [proj(m) for m in L]
+        ctx.evaluation()
+        ctx.case(h("held", n, view, steps), bool(want))
+        ctx.count("iterators_read_in_between_the_operations")
+        if got != want:
+            ctx.violation("operation-does-not-reach-an-iterator-taken-earlier", {"kind": "held"}, {"matches": n, "source": source, "reading": view, "steps": steps, "read": repr(got)[:300], "list_model": repr(want)[:300]})
+            return
+
+
+_END = object()
+
+
 def plan(tier, seed):
     specs = []
     maxlen = 2 if tier == "quick" else 3
@@ -256,6 +296,7 @@ def run(spec, ctx):
     env = jsonpath.DEFAULT_ENV
     r = ctx.rng
     if spec["kind"] == "threads":
+        run_held(ctx, r, spec["rounds"] * 5)
         # batches split off with take() (and tee() children) are handed to worker threads that read them while the main
         # thread goes on splitting and reading the original query (yields injected in fluent_api.py / selectors.py): every
         # batch must be exactly its slice of the match list
@@ -515,6 +556,9 @@ def replay(case, ctx):
 
     if case.get("kind") == "threads":
         run({"kind": "threads", "rounds": 200}, ctx)
+        return
+    if case.get("kind") == "held":
+        run_held(ctx, ctx.rng, 2000)
         return
     if case.get("kind") == "key-twins":
         run({"kind": "shared-compiled", "count": 0}, ctx)
